@@ -6,13 +6,14 @@
 (* StreamReader are checked against:                                       *)
 (*   Footprint: live - live0 <= Bound * objects at every sample, and the   *)
 (*   maximum over the second half of the run does not exceed the maximum   *)
-(*   over the first half (after a warm-up) by more than Slack - an honest  *)
+(*   over the first half (after a warm-up of at least Warm bytes, only on  *)
+(*   runs of at least 4 * Warm bytes) by more than Slack - an honest       *)
 (*   constant does not grow, a leak grows linearly;                        *)
 (*   Lag: total_size - stable <= one arena chunk + one HCOBS chunk + 2     *)
 (*   for the encoder, 0 for the decoder;  NoLeak at the end.               *)
 EXTENDS Naturals, Integers, Sequences, FiniteSets, TLC, Json, IOUtils
 
-CONSTANTS Bound, Slack, MaxArenaChunk, L2
+CONSTANTS Bound, Slack, Warm, MaxArenaChunk, L2
 
 Rec == ndJsonDeserialize(IOEnv.TRACE)
 
@@ -28,8 +29,10 @@ Max2(a, b) == IF a >= b THEN a ELSE b
 
 Sample(s, e) ==
   LET used == Max2(e.live, e.peak) - s.live0
-      warm == s.total \div 4
-      half == s.total \div 2
+      \* the arenas (encoder, decoder, producer) first grow their chunk size geometrically to 1 MiB: that is warm-up,
+      \* not a leak.  Halves are only compared on runs long enough to have a steady state.
+      warm == IF s.total \div 4 > Warm THEN s.total \div 4 ELSE Warm
+      half == IF s.total \div 2 > 2 * Warm THEN s.total \div 2 ELSE 2 * Warm
       s1 == [s EXCEPT !.max1 = IF e.streamed >= warm /\ e.streamed < half THEN Max2(@, used) ELSE @,
                       !.max2 = IF e.streamed >= half THEN Max2(@, used) ELSE @]
   IN [st |-> s1,
@@ -61,7 +64,7 @@ Next ==
                When(e.panic # "", {<<"C10", "panic while streaming: " \o e.panic>>})
           \cup When(e.panic = "" /\ (e.live # st.live0 \/ e.chunks # st.chunks0),
                     {<<"C10", "arena chunks still live after the codec objects were dropped">>})
-          \cup When(e.panic = "" /\ st.max1 > 0 /\ st.max2 > st.max1 + Slack,
+          \cup When(e.panic = "" /\ st.total >= 4 * Warm /\ st.max1 > 0 /\ st.max2 > st.max1 + Slack,
                     {<<"C10", "live arena bytes keep growing with the amount of data streamed">>})})
 
 Spec == Init /\ [][Next]_vars
